@@ -199,57 +199,66 @@ static ev_src_t *create_src(m_mod_t *mod, m_src_types type, process_cb proc,
     return src;
 }
 
+/*
+ * Compare functions always compare 2 ev_src_t, by their identifying value:
+ * both when a new source is inserted, and when a source is looked up by key
+ * (see deregister_mod_src(), that builds a key source).
+ * They never return a (possibly truncated) difference.
+ */
+#define M_CMP(a, b) (((a) > (b)) - ((a) < (b)))
+
 static int fdcmp(void *my_data, void *node_data) {
     ev_src_t *src = (ev_src_t *)node_data;
-    int fd = *((int *)my_data);
+    ev_src_t *mine = (ev_src_t *)my_data;
 
-    return fd - src->fd_src.fd;
+    return M_CMP(mine->fd_src.fd, src->fd_src.fd);
 }
 
 static int tmrcmp(void *my_data, void *node_data) {
     ev_src_t *src = (ev_src_t *)node_data;
-    const m_src_tmr_t *its = (const m_src_tmr_t *)my_data;
+    ev_src_t *mine = (ev_src_t *)my_data;
 
-    return its->ns - src->tmr_src.its.ns;
+    return M_CMP(mine->tmr_src.its.ns, src->tmr_src.its.ns);
 }
 
 static int sgncmp(void *my_data, void *node_data) {
     ev_src_t *src = (ev_src_t *)node_data;
-    const m_src_sgn_t *sgs = (const m_src_sgn_t *)my_data;
+    ev_src_t *mine = (ev_src_t *)my_data;
 
-    return sgs->signo - src->sgn_src.sgs.signo;
+    return M_CMP(mine->sgn_src.sgs.signo, src->sgn_src.sgs.signo);
 }
 
 static int pathcmp(void *my_data, void *node_data) {
     ev_src_t *src = (ev_src_t *)node_data;
-    const m_src_path_t *pt = (const m_src_path_t *)my_data;
+    ev_src_t *mine = (ev_src_t *)my_data;
 
-    return strcmp(pt->path, src->path_src.pt.path);
+    return strcmp(mine->path_src.pt.path, src->path_src.pt.path);
 }
 
 static int pidcmp(void *my_data, void *node_data) {
     ev_src_t *src = (ev_src_t *)node_data;
-    const m_src_pid_t *pid = (const m_src_pid_t *)my_data;
+    ev_src_t *mine = (ev_src_t *)my_data;
 
-    return pid->pid - src->pid_src.pid.pid;
+    return M_CMP(mine->pid_src.pid.pid, src->pid_src.pid.pid);
 }
 
 static int taskcmp(void *my_data, void *node_data) {
     ev_src_t *src = (ev_src_t *)node_data;
-    const m_src_task_t *tid = (const m_src_task_t *)my_data;
+    ev_src_t *mine = (ev_src_t *)my_data;
 
-    return tid->tid - src->task_src.tid.tid;
+    return M_CMP(mine->task_src.tid.tid, src->task_src.tid.tid);
 }
 
 static int threshcmp(void *my_data, void *node_data) {
     ev_src_t *src = (ev_src_t *)node_data;
-    const m_src_thresh_t *thr = (const m_src_thresh_t *)my_data;
+    ev_src_t *mine = (ev_src_t *)my_data;
 
-    long double my_val = (long double)thr->activity_freq
-                         + (long double)thr->inactive_ms;
-    long double their_val = (long double)src->thresh_src.thr.activity_freq
-                            + (long double)src->thresh_src.thr.inactive_ms;
-    return my_val - their_val;
+    /* Both values identify a threshold */
+    int ret = M_CMP(mine->thresh_src.thr.inactive_ms, src->thresh_src.thr.inactive_ms);
+    if (ret == 0) {
+        ret = M_CMP(mine->thresh_src.thr.activity_freq, src->thresh_src.thr.activity_freq);
+    }
+    return ret;
 }
 
 static ev_src_t *process_ps(ev_src_t *this, m_ctx_t *c, int idx, evt_priv_t *evt) {
@@ -394,7 +403,35 @@ int deregister_mod_src(m_mod_t *mod, m_src_types type, void *src_data) {
     M_MOD_ASSERT(mod);
     M_MOD_CONSUME_TOKEN(mod);
 
-    return m_bst_remove(mod->srcs[type], src_data);
+    /* Build a key source holding the identifying value only; see compare functions */
+    ev_src_t key = {0};
+    switch (type) {
+    case M_SRC_TYPE_PS:
+    case M_SRC_TYPE_FD:
+        key.fd_src.fd = *((int *)src_data);
+        break;
+    case M_SRC_TYPE_TMR:
+        memcpy(&key.tmr_src.its, src_data, sizeof(m_src_tmr_t));
+        break;
+    case M_SRC_TYPE_SGN:
+        memcpy(&key.sgn_src.sgs, src_data, sizeof(m_src_sgn_t));
+        break;
+    case M_SRC_TYPE_PATH:
+        memcpy(&key.path_src.pt, src_data, sizeof(m_src_path_t));
+        break;
+    case M_SRC_TYPE_PID:
+        memcpy(&key.pid_src.pid, src_data, sizeof(m_src_pid_t));
+        break;
+    case M_SRC_TYPE_TASK:
+        memcpy(&key.task_src.tid, src_data, sizeof(m_src_task_t));
+        break;
+    case M_SRC_TYPE_THRESH:
+        memcpy(&key.thresh_src.thr, src_data, sizeof(m_src_thresh_t));
+        break;
+    default:
+        return -EINVAL;
+    }
+    return m_bst_remove(mod->srcs[type], &key);
 }
 
 int start_task(m_ctx_t *c, ev_src_t *src) {
